@@ -11,14 +11,20 @@ import metam
 import modelio as M
 import popgen
 
-PRELUDE = ("From GettsimModel Require Import Dag Scalar Contrib ChkC19.\nFrom GettsimGen Require Import GenRules GenYaml GenConfig GenDag.\n"
+PRELUDE = ("From GettsimModel Require Import Dag Scalar Contrib ChkC19 ChkC19Aff.\nFrom GettsimGen Require Import GenRules GenYaml GenConfig GenDag.\n"
            "Definition PA := params_at yaml_groups internal_params_groups.\n"
            "Definition ok_at (d : Z) (ost new : bool) (rate ceil tgt : string) : bool :=\n"
            "  match find (fun od => Z.eqb (fst od) d) dags, PA d with\n"
            "  | Some od, Ok p => c19_ok (snd od) all_fundefs p ost new rate ceil tgt | _, _ => false end.\n"
            "Definition diag_at (d : Z) (ost new : bool) (rate ceil tgt : string) : string :=\n"
            "  match find (fun od => Z.eqb (fst od) d) dags, PA d with\n"
-           "  | Some od, Ok p => c19_diag (snd od) all_fundefs p ost new rate ceil tgt | _, _ => \"no graph / environment\" end.\n")
+           "  | Some od, Ok p => c19_diag (snd od) all_fundefs p ost new rate ceil tgt | _, _ => \"no graph / environment\" end.\n"
+           "Definition aff_ok_at (d : Z) : bool :=\n"
+           "  match find (fun od => Z.eqb (fst od) d) dags, PA d with\n"
+           "  | Some od, Ok p => c19_aff_ok (snd od) all_fundefs p | _, _ => false end.\n"
+           "Definition aff_diag_at (d : Z) : string :=\n"
+           "  match find (fun od => Z.eqb (fst od) d) dags, PA d with\n"
+           "  | Some od, Ok p => c19_aff_diag (snd od) all_fundefs p | _, _ => \"no graph / environment\" end.\n")
 LO = 735599
 NEW = 738429   # 2022-10-01
 BRANCHES = [("pension", "ges_rentenv", "_ges_rentenv_beitr_bemess_grenze_m", "ges_rentenv_beitr_arbeitnehmer_m"),
@@ -43,6 +49,16 @@ def obligations():
                          f"satisfy cond, and the scalar evaluation of the regenerated rule chain {tgt} equals the closed form "
                          f"({'since' if new == 'true' else 'until'} 10/2022) on the wage grid",
                     diag=f'diag_at {o} {ost} {new} "{rate}" "{ceil}" "{tgt}"'))
+    for o in [d for d in metam.dag_dates() if d >= LO]:
+        obls.append(dict(
+            name=f"c19_all_wages_{o}",
+            stmt=f"aff_ok_at {o} = true",
+            proof="vm_cast_no_check (@eq_refl bool true).",
+            what=f"{impl.iso(o)}: premise of C19_all_wages (ChkC19Aff.c19_aff_sound) — for east / west x 0, 1, 2, 4, 6 children x age 20 / 35 and all four "
+                 f"insurances the employee, employer and transition-zone-total chains of the real graph evaluate symbolically to affine pieces between the "
+                 f"statutory boundaries, and the pieces are non-negative, non-decreasing, zero up to the marginal-employment threshold, constant from the "
+                 f"ceiling on, continuous at the upper zone boundary, with employee + employer = total inside the zone: hence for EVERY wage",
+            diag=f"aff_diag_at {o}"))
     return obls
 
 
